@@ -469,6 +469,10 @@ class ArgumentParser(ParserDeprecations, ActionsContainer, ArgumentLinking, argp
         except (TypeError, KeyError) as ex:
             self.error(str(ex), ex)
 
+        finally:
+            if hasattr(self, "print_config"):
+                delattr(self, "print_config")  # request not fulfilled because parsing failed
+
         self._logger.debug("Parsed command line arguments: %s", args)
         return parsed_cfg
 
